@@ -410,6 +410,34 @@ class Executor:
             if not all(isinstance(k, ast.Constant) and isinstance(k.value, str) for k in n.keys):
                 fail(n, "dict with non-literal keys")
             return {k.value: self.expr(v, sc) for k, v in zip(n.keys, n.values)}
+        if isinstance(n, ast.DictComp) and len(n.generators) == 1 and not n.generators[0].ifs:
+            g = n.generators[0]
+            src = g.iter
+            if not (isinstance(src, ast.Call) and isinstance(src.func, ast.Attribute) and src.func.attr == "items" and not src.args):
+                fail(n, "unsupported dict comprehension")
+            d = self.expr(src.func.value, sc)
+            if not isinstance(d, dict):
+                fail(n, "dict comprehension over a non-dict")
+            out = {}
+            for k, v in d.items():
+                s2 = dict(sc)
+                self.bind(g.target, (Static(k), v), s2)
+                kk = self.expr(n.key, s2)
+                if not (isinstance(kk, Static) and isinstance(kk.v, str)):
+                    fail(n, "dict comprehension key is not a static string")
+                out[kk.v] = self.expr(n.value, s2)
+            return out
+        if isinstance(n, ast.JoinedStr):
+            parts = []
+            for v in n.values:
+                if isinstance(v, ast.Constant):
+                    parts.append(str(v.value))
+                elif isinstance(v, ast.FormattedValue):
+                    x = self.expr(v.value, sc)
+                    if not isinstance(x, Static):
+                        fail(n, "f-string over a non-static value")
+                    parts.append(str(x.v))
+            return Static("".join(parts))
         if isinstance(n, ast.Lambda):
             return Closure(n, sc)
         if isinstance(n, ast.Call):
@@ -646,6 +674,11 @@ class Executor:
                     fail(s, "list mutation under a dynamic condition")
                 lst.append(self.expr(s.value.args[0], sc))
                 continue
+            if isinstance(s, ast.Expr) and isinstance(s.value, ast.Call):
+                if self.dyn:
+                    fail(s, "call for effect under a dynamic condition")
+                self.expr(s.value, sc)        # a call made for its effect: only oracles of the specification have effects
+                continue
             if isinstance(s, ast.For) and not s.orelse:
                 it = s.iter
                 if isinstance(it, ast.Call) and isinstance(it.func, ast.Name) and it.func.id == "zip" and not it.keywords:
@@ -670,6 +703,12 @@ class Executor:
         return None
 
     def bind(self, target, v, sc):
+        if isinstance(target, ast.Subscript) and isinstance(target.slice, ast.Constant) and isinstance(target.slice.value, str):
+            d = self.expr(target.value, sc)
+            if not isinstance(d, dict) or self.dyn:
+                fail(target, "item assignment into something else than a static dict")
+            d[target.slice.value] = v
+            return
         if isinstance(target, ast.Name):
             sc[target.id] = v
             return
@@ -688,6 +727,10 @@ def reduce_vec(kind, v, n):
         return Sc("Z", f"(kcount {materialise(v)})")
     if isinstance(v, Vec) and v.ety == "R" and CFG["scope"] == "Q" and kind == "sum":
         return Sc("R", f"(ksumQ {materialise(v)})")
+    if isinstance(v, Vec) and v.ety == "R" and CFG["scope"] == "Q" and kind == "mean":
+        return Sc("R", f"(kmeanQ {materialise(v)})")
+    if isinstance(v, Vec) and v.ety == "Z" and kind == "sum":
+        return Sc("Z", f"(ksumZ {materialise(v)})")
     if not isinstance(v, Vec) or v.ety != "R" or CFG["scope"] != "R":
         fail(n, "reduction of a non-real vector")
     return Sc("R", f"({'kmean' if kind == 'mean' else 'ksum'} {materialise(v)})")
